@@ -113,3 +113,20 @@ package search
 //@   site call blockHelper.AddMatchedRecord #2:
 //@     assert [a-plain-filter-selects-a-record-only-if-it-matched] matched && arg1 == i
 //@ end
+
+// C09 (the answer is the same for open and for just-flushed data): for a request
+// over an open segment the in-memory block is searched BEFORE the list of
+// flushed blocks is handed to the block workers — that search is also what moves
+// a block flushed since planning from "open" into the list, so run later it
+// would leave that block unread by anyone.  Ghost unrotSearched: the open block
+// of this request has been searched.
+//@ ghostdecl unrotSearched int
+//@ func RawSearchMetricsSegment
+//@   props C09
+//@   assumecalleerequires
+//@   ghostinit ghost(0, "unrotSearched") == 0
+//@   site callret metrics.SearchUnrotatedMetricsBlock #1:
+//@     ghostset ghost(0, "unrotSearched") = 1
+//@   site call close #1:
+//@     assert [the-open-block-is-searched-before-the-flushed-blocks-are-handed-out] req != nil && (old(req.QueryType) != structs.UNROTATED_METRICS_SEARCH || ghost(0, "unrotSearched") == 1)
+//@ end
